@@ -121,6 +121,18 @@ def mapM {α β : Type} (l : List α) (f : α → Res β) : Res (List β) :=
   | [] => .ok []
   | a :: rest => Res.bind (f a) (fun b => Res.bind (mapM rest f) (fun r => .ok (b :: r)))
 
+/-- `Iterator::any` with a predicate that can panic (stops at the first `true`) -/
+def anyM {α : Type} (l : List α) (f : α → Res Bool) : Res Bool :=
+  match l with
+  | [] => .ok false
+  | a :: rest => Res.bind (f a) (fun b => bif b then .ok true else anyM rest f)
+
+/-- `Iterator::all` with a predicate that can panic (stops at the first `false`) -/
+def allM {α : Type} (l : List α) (f : α → Res Bool) : Res Bool :=
+  match l with
+  | [] => .ok true
+  | a :: rest => Res.bind (f a) (fun b => bif b then allM rest f else .ok false)
+
 /-! ### loop lemmas -/
 
 @[simp] theorem forM_nil {α σ : Type} (init : σ) (f : σ → α → Res σ) : forM [] init f = .ok init := rfl
